@@ -266,6 +266,7 @@ type SX struct {
 	c         *Ctx
 	MaxDepth  int
 	NoInline  map[string]bool // function names never inlined (kept as opaque calls)
+	ForceStep func(*types.Func) bool // calls recorded as effect steps even when pure (ordering matters to the rule)
 	addrTaken map[types.Object]bool
 	loopID    int
 	fresh     int
@@ -1548,7 +1549,7 @@ func (x *SX) call(call *ast.CallExpr, st *sxState, nres int) []evalOut {
 					}
 				}
 			}
-			if hasFuncArg || !x.pureCall(fun) {
+			if hasFuncArg || !x.pureCall(fun) || (x.ForceStep != nil && fun != nil && x.ForceStep(fun)) {
 				ao.st.epoch++
 				tt := t
 				ao.st.steps = append(ao.st.steps, Step{Kind: "call", Call: &tt, Node: call})
@@ -1837,6 +1838,21 @@ func simplify(t Term) Term {
 				if a.Val.Kind() == b.Val.Kind() && a.Val.Kind() != constant.Unknown {
 					return TConst{constant.MakeBool(constant.Compare(a.Val, v.Op, b.Val))}
 				}
+			}
+		}
+		// nil comparisons that are decided: nil == nil; a freshly constructed error is never nil
+		if v.Op == token.EQL || v.Op == token.NEQ {
+			_, xn := v.X.(TNil)
+			_, yn := v.Y.(TNil)
+			nonNil := func(t Term) bool {
+				c, ok := t.(TCall)
+				return ok && c.Fun != nil && (c.Fun.FullName() == "fmt.Errorf" || c.Fun.FullName() == "errors.New")
+			}
+			switch {
+			case xn && yn:
+				return TConst{constant.MakeBool(v.Op == token.EQL)}
+			case (xn && nonNil(v.Y)) || (yn && nonNil(v.X)):
+				return TConst{constant.MakeBool(v.Op == token.NEQ)}
 			}
 		}
 		// orientation: a > b  ==>  b < a ; a >= b ==> b <= a ; symmetric ops sorted by key
